@@ -4,6 +4,7 @@ package main
 
 import (
 	"fmt"
+	"go/constant"
 	"go/token"
 	"go/types"
 	"sort"
@@ -15,7 +16,39 @@ import (
 const maxInlineDepth = 4
 
 func (r *FnRun) execCall(st *State, x *ssa.Call) *State {
-	return r.execCallCommon(st, &x.Call, x, x.Pos())
+	nst := r.execCallCommon(st, &x.Call, x, x.Pos())
+	if r.depth == 0 && nst != nil {
+		r.callOrdinal++
+		if r.c != nil {
+			for _, ma := range r.c.Asserts {
+				if ma.N != r.callOrdinal || !r.root.wantClause(ma.Cl) {
+					continue
+				}
+				// the DebugRefs naming the call's result follow the call instruction: apply them first
+				blk := x.Block()
+				for i, ins := range blk.Instrs {
+					if ins != ssa.Instruction(x) {
+						continue
+					}
+					for _, nx := range blk.Instrs[i+1:] {
+						dr, ok := nx.(*ssa.DebugRef)
+						if !ok {
+							break
+						}
+						if dr.Object() != nil && !dr.IsAddr {
+							r.names[dr.Object().Name()] = dr.X
+						}
+					}
+				}
+				env := r.rootEnvFor(nst)
+				env.preferNames = true // source variables denote their current values
+				g := env.EvalBool(ma.Cl.E)
+				r.oblige(nst, "assert", fmt.Sprintf("call%d", ma.N), g, x.Pos(), "intermediate assertion: "+ma.Cl.Text, ma.Cl.Tags)
+				r.assume(nst, g)
+			}
+		}
+	}
+	return nst
 }
 
 func (r *FnRun) setResult(dst *ssa.Call, v Val) {
@@ -118,6 +151,9 @@ func (r *FnRun) execCallCommon(st *State, cc *ssa.CallCommon, dst *ssa.Call, pos
 			names = append(names, p.Name())
 		}
 		res, nst := r.applyContract(st, c, r.e.relName(callee), callee.Signature, names, args, argt, pos, what)
+		if callee.String() == "fmt.Errorf" {
+			r.errorfWraps(nst, cc, res)
+		}
 		r.setResult(dst, res)
 		return nst
 	}
@@ -333,6 +369,8 @@ func (r *FnRun) execAppend(st *State, cc *ssa.CallCommon, dst *ssa.Call, pos tok
 		nb := tb.Fresh("ap!"+r.fn.Name(), BV64)
 		r.addFact(tb.Ne(nb, tb.BVI(64, 0)))
 		r.addFact(tb.Implies(st.PC, tb.Not(tb.Select(st.BA, nb))))
+		r.addFact(tb.Not(tb.App("cowned", BoolSort, nb)))
+		r.addFact(tb.Not(tb.App("rodata", BoolSort, nb)))
 		rb := tb.Ite(fits, s.Base, nb)
 		src := r.sliceContent(st, t)
 		content := tb.CopyRange(tb.Select(st.BH, s.Base), tb.Add(s.Off, s.Len), src, t.Off, n)
@@ -581,7 +619,7 @@ func shortName(s string) string {
 	return s
 }
 
-// emitEvent appends EV(args...) to the activation's ghost trace.
+// emitEvent appends EV(args...) to the activation's ghost trace. Word slots a..f; one byte-string slot (arr).
 func (r *FnRun) emitEvent(st *State, env *Env, e *Expr) {
 	tb := r.tb()
 	if e.Kind != "call" {
@@ -592,8 +630,17 @@ func (r *FnRun) emitEvent(st *State, env *Env, e *Expr) {
 		panic(cerr("unknown event %s", e.Name))
 	}
 	var slots []*Term
+	var arr *Term
 	for _, a := range e.Args {
 		cv := env.coerceConst(env.Eval(a), types.Typ[types.Int64])
+		if sv, isSlice := cv.V.(SliceV); isSlice {
+			if arr != nil {
+				panic(cerr("event %s: only one byte-string argument is supported", e.Name))
+			}
+			arr = r.sliceContent(env.cur, sv)
+			slots = append(slots, sv.Off, sv.Len)
+			continue
+		}
 		var ls []leaf
 		leaves(cv.V, "", &ls)
 		for _, l := range ls {
@@ -610,14 +657,22 @@ func (r *FnRun) emitEvent(st *State, env *Env, e *Expr) {
 	}
 	n := r.e.ghost(st, "trace.len", BV64)
 	set := func(name string, v *Term) {
-		arr := r.e.ghost(st, "trace."+name, WordAr)
-		st.Ghost["trace."+name] = tb.Store(arr, n, v)
+		arrT := r.e.ghost(st, "trace."+name, WordAr)
+		st.Ghost["trace."+name] = tb.Store(arrT, n, v)
 	}
 	set("kind", tb.BVI(64, int64(kind)))
-	for i, nm := range []string{"a", "b", "c", "d"} {
+	names := []string{"a", "b", "c", "d", "e", "f", "g", "h"}
+	if len(slots) > len(names) {
+		panic(cerr("event %s has too many words", e.Name))
+	}
+	for i, nm := range names {
 		if i < len(slots) {
 			set(nm, slots[i])
 		}
+	}
+	if arr != nil {
+		at := r.e.ghost(st, "trace.arr", ObjAr)
+		st.Ghost["trace.arr"] = tb.Store(at, n, arr)
 	}
 	st.Ghost["trace.len"] = tb.Add(n, tb.BVI(64, 1))
 }
@@ -903,7 +958,7 @@ func isTraceClause(e *Expr) bool {
 	}
 	if e.Kind == "call" {
 		switch e.Name {
-		case "tlen", "tkind", "ta", "tb", "tc", "td":
+		case "tlen", "tkind", "ta", "tb", "tc", "td", "te", "tf", "tg", "th", "tbytes":
 			return true
 		}
 	}
@@ -913,4 +968,45 @@ func isTraceClause(e *Expr) bool {
 		}
 	}
 	return false
+}
+
+// errorfWraps: fmt.Errorf with a constant format: every argument formatted with %w is wrapped by the result
+// (assumed contract of package fmt).
+func (r *FnRun) errorfWraps(st *State, cc *ssa.CallCommon, res Val) {
+	fc, ok := cc.Args[0].(*ssa.Const)
+	if !ok || fc.Value == nil {
+		return
+	}
+	format := constant.StringVal(fc.Value)
+	ps, ok := r.val(cc.Args[1]).(PSlice)
+	if !ok {
+		return
+	}
+	rv, ok := res.(IfaceV)
+	if !ok {
+		return
+	}
+	argi := 0
+	for i := 0; i < len(format); i++ {
+		if format[i] != '%' {
+			continue
+		}
+		i++
+		for i < len(format) && strings.ContainsRune("+-# 0123456789.", rune(format[i])) {
+			i++
+		}
+		if i >= len(format) {
+			break
+		}
+		if format[i] == '%' {
+			continue
+		}
+		if format[i] == 'w' {
+			addr := r.tb().Add(ps.Ptr, r.tb().BVI(64, int64(16*argi)))
+			if el, ok := r.objLoad(st, addr, ps.Elem).(IfaceV); ok {
+				r.assume(st, r.e.wraps(rv, el))
+			}
+		}
+		argi++
+	}
 }
